@@ -223,8 +223,12 @@ func (a *Adversary) Deliver(route string, victim *Peer, st iface.Store, heads ..
 			_ = json.Unmarshal(b, ne)
 			hs = append(hs, ne)
 		}
+		// the victim's application may give up on this request at any moment
+		ctx, cancel := context.WithCancel(context.Background())
+		a.K.cleanups = append(a.K.cleanups, cancel)
+		a.K.RegisterCancel(victim.Node.Idx, cancel)
 		a.K.Go(victim.Node.Idx, "sync-foreign-heads", func() (interface{}, error) {
-			return nil, st.Sync(context.Background(), hs)
+			return nil, st.Sync(ctx, hs)
 		})
 	}
 }
